@@ -342,6 +342,13 @@ class Reject(Sub):
             rec.discard_case("no negative element left")
         n = len(case["x"])
         rec.nt((k, dtype, case.get("neg"), min(n, 4), "first" if case.get("pos") == 0 else "last" if case.get("pos") == n - 1 else "mid"))
+        # the kernel object may have a past: for every other case it was first used on a valid (non-negative) input - "rejects negative
+        # input" holds for every call, not only for the first one of an object (a check that is switched off after the first pass would
+        # be invisible otherwise - seed C09g)
+        if len(case["x"]) % 2 == 0:
+            with _sut(rec, "kernel on valid input before the negative one", k):
+                mod(x.abs())
+            rec.label("kernel_used_before")
         try:
             out = mod(x)
         except REJECTIONS as e:      # the kernels' own input check (assert ... 'input has to be non-negative')
